@@ -122,6 +122,24 @@ Theorem C10_resolveb_iff : forall D vis n, Good D vis n <-> exists f, resolveb f
 Proof. exact resolveb_iff. Qed.
 Print Assumptions C10_resolveb_iff.
 
+(** ** Finding (not covered by the outcome-level statements above, which hold): the CONTENT of a
+    singleton depends on the request order when a cycle runs through two optional edges.
+    n3 ?-> n0, n0 ?-> n1, n1 -> n3.  All Gets succeed in every order; but if n0 is requested first
+    its optional field n1 is filled, if n3 is requested first n0 is built while n1 is unresolvable
+    (cycle through n3), its field stays empty forever although [Get n1] succeeds afterwards.
+    An optional-and-missing resolution thus changes what a later request observes inside the
+    instance it gets.  Replayed on the implementation by the harness (scenario "wiring"). *)
+Theorem C10_wiring_history_dependent_refuted :
+  let s0 := run wiring_pgm init in
+  let sa := fst (Get s0 0) in
+  let sd := fst (Get (fst (Get s0 3)) 0) in
+  is_ok (snd (Get s0 0)) = true /\ is_ok (snd (Get (fst (Get s0 3)) 0)) = true /\
+  is_ok (snd (Get sa 1)) = true /\ is_ok (snd (Get sd 1)) = true /\
+  wire sa 0 = [Some (mkTok 1 KFac 3 1)] /\ wire sd 0 = [None] /\
+  wire (run [OGet 1; OGet 0; OGet 3] sd) 0 = [None].
+Proof. exact wiring_depends_on_order. Qed.
+Print Assumptions C10_wiring_history_dependent_refuted.
+
 (** ** Non-vacuity: concrete programs meeting the hypotheses. *)
 
 Definition fA := mkProg [(1, true)] false false.          (* n0 ?-> n1 *)
